@@ -166,7 +166,7 @@ def summarize(w):
         "viol": tuple(sorted(set(w.viol))),
         "dbatch": tuple(w.dbatch_log),
         "prof": w.prof,
-        "dd_runs": tuple(sorted(w.dd_runs.items())),
+        "dd_runs": tuple(sorted(w.dd_runs.items(), key=repr)),
     }
 
 
